@@ -98,6 +98,10 @@ func Corpus() []NamedCase {
 		{"header-table-size-above-64k", []Op{settings("S", 1, 1<<20), ack("C"), hdr("C", 1, true, reqFields),
 			settings("C", 1, 65537), ack("S"), hdr("S", 1, false, respFields), hdr("C", 3, true, reqFields),
 			settings("S", 1, 1<<24), ack("C"), hdr("C", 5, true, reqFields)}, true},
+		{"queued-data-several-times-the-lowered-limit", []Op{settings("S", 4, 10, 5, 16777215), ack("C"), hdr("C", 1, false, reqFields),
+			data("C", 1, 60000, false), data("C", 1, 70000, true), settings("S", 5, 16384), ack("C"), winupd("S", 1, 200000), winupd("S", 0, 200000)}, true},
+		{"deficit-after-settings-decrease", []Op{settings("S", 4, 65535), ack("C"), hdr("C", 1, false, reqFields), data("C", 1, 60000, false),
+			settings("S", 4, 16384), ack("C"), winupd("S", 0, 100000), winupd("S", 1, 50000), data("C", 1, 16384, false), data("C", 1, 6000, true)}, true},
 		{"window-blocking", []Op{settings("S", 4, 10), ack("C"), hdr("C", 1, false, reqFields), data("C", 1, 25, true),
 			winupd("S", 1, 5), winupd("S", 1, 10), winupd("S", 0, 1)}, true},
 	}...)
